@@ -54,13 +54,42 @@ Fixpoint join (sep : bytes) (l : list bytes) : bytes :=
   end.
 
 (* ---- Value.ToString(false) ----
-   strconv.Quote is modelled on the class where it only adds the surrounding quotes: printable ASCII without
-   the double quote and the backslash.  [quotable] says whether a tree stays inside that class wherever Quote is applied. *)
+   strconv.Quote is modelled on 7-bit input (every byte below 128): the double quote and the backslash get a backslash,
+   \a \b \f \n \r \t \v, the other control bytes and DEL become \xHH (lower-case hex), everything else stays.  On bytes
+   >= 128 Go decodes UTF-8 and consults unicode.IsPrint (tables): not modelled.  [quotable] says whether every string
+   that passes through Quote while a tree is rendered is 7-bit, i.e. whether [to_string] is exact for the tree.
+   Scalars are never quoted: their string form is exact for ALL byte strings. *)
 Definition dquote : ascii := ascii_of_N 34.
+Definition bslash : ascii := ascii_of_N 92.
+Definition ascii7 (s : bytes) : bool := forallb (fun c => N.ltb (N_of_ascii c) 128) s.
+
+Fixpoint quote_body (s : bytes) : bytes :=
+  match s with
+  | [] => []
+  | c :: r =>
+      let n := N_of_ascii c in
+      let rest := quote_body r in
+      let esc (x : string) := bslash :: chars x ++ rest in
+      if N.eqb n 34 then bslash :: dquote :: rest
+      else if N.eqb n 92 then bslash :: bslash :: rest
+      else if N.eqb n 7 then esc "a"
+      else if N.eqb n 8 then esc "b"
+      else if N.eqb n 12 then esc "f"
+      else if N.eqb n 10 then esc "n"
+      else if N.eqb n 13 then esc "r"
+      else if N.eqb n 9 then esc "t"
+      else if N.eqb n 11 then esc "v"
+      else if N.ltb n 32 || N.eqb n 127
+      then bslash :: ascii_of_N 120 :: hexdigit (N.div n 16) :: hexdigit (N.modulo n 16) :: rest
+      else c :: rest
+  end.
+
+Definition quote (s : bytes) : bytes := dquote :: quote_body s ++ [dquote].
+
+(* the class of the first version of this model (Quote only adds the surrounding quotes); kept for the distribution *)
 Definition simple_byte (c : ascii) : bool :=
   let n := N_of_ascii c in N.leb 32 n && N.leb n 126 && negb (N.eqb n 34) && negb (N.eqb n 92).
 Definition simple (s : bytes) : bool := forallb simple_byte s.
-Definition quote (s : bytes) : bytes := dquote :: s ++ [dquote].
 
 Fixpoint to_string (v : evalue) : bytes :=
   match v with
@@ -75,11 +104,11 @@ Fixpoint to_string (v : evalue) : bytes :=
                 (sort_keys (map (fun kv => match kv with (k, x) => (k, to_string x) end) l)))
   end.
 
-(* every string that passes through Quote when [v] is rendered is in the modelled class *)
+(* every string that passes through Quote when [v] is rendered is 7-bit (then so is the result of Quote) *)
 Fixpoint quotable (v : evalue) : bool :=
   match v with
-  | VArr _ l => forallb (fun x => quotable x && simple (to_string x)) l
-  | VObj _ l => forallb (fun kv => match kv with (k, x) => simple k && quotable x && simple (to_string x) end) l
+  | VArr _ l => forallb (fun x => quotable x && ascii7 (to_string x)) l
+  | VObj _ l => forallb (fun kv => match kv with (k, x) => ascii7 k && quotable x && ascii7 (to_string x) end) l
   | _ => true
   end.
 
@@ -188,6 +217,27 @@ Definition cmd_run (P : rparams) (deep : bool) (root : evalue) (args : list (lis
   let secrets := cmd_secrets deep root args in
   (run P secrets [child_wrote e (cmd_stream (cmd_args root args) script)],
    run P secrets [child_wrote e script2],
+   child_failed e).
+
+(* ---- the same command, seen as the Write/Close state machine it is: the child makes ANY sequence of Write calls on
+        each stream ([ch1], [ch2]; the two redactors are independent, so the interleaving of the two sequences does not
+        matter), then RunE returns.  The redactors are closed by deferred calls, i.e. on every path; [close_always] is
+        that fact as read from the source (false: Close is reached only when exec.Run reported no error - the shape of
+        the seeded defect C13-d).  Per stream: (bytes forwarded, bytes still in the line buffer when RunE has returned). ---- *)
+Definition stream_forwarded (ph : bytes) (pats : list bytes) (closed : bool) (chunks : list bytes) : bytes * bytes :=
+  let (o, l) := write_all ph pats [] chunks in
+  if closed then let (o', l') := close ph pats l in (o ++ o', l') else (o, l).
+
+Definition closes (close_always : bool) (e : child_end) : bool := close_always || negb (child_failed e).
+
+Definition child_chunks (e : child_end) (chunks : list bytes) : list bytes :=
+  match e with ChildNoStart => [] | _ => chunks end.
+
+Definition cmd_run_sm (P : rparams) (deep close_always : bool) (root : evalue) (args : list (list part)) (e : child_end)
+    (ch1 ch2 : list bytes) : (bytes * bytes) * (bytes * bytes) * bool :=
+  let pats := new_replacer P (cmd_secrets deep root args) in
+  (stream_forwarded (rp_placeholder P) pats (closes close_always e) (child_chunks e ch1),
+   stream_forwarded (rp_placeholder P) pats (closes close_always e) (child_chunks e ch2),
    child_failed e).
 
 (* ---- specification vocabulary: [n] is [v] or a value nested in [v] ---- *)
